@@ -11,6 +11,21 @@ CHECKS = {
             "Generated configuration x operation histories (thousands per quick run, 150k thorough) executed against the real logger under a virtual clock; the rotated files in semantic order plus the current file must equal the concatenation of all logged lines. Search, not proof: it shows absence of violations only on the explored cases.",
             "trusts: harness name grammar and semantic file order; tmpfs semantics; verif_hooks virtual clock equals the real clock path (cross-checked by the 10% real-clock cases)",
             "DESIGN.md 4/C01"),
+    "C08": ("exploration",
+            "proptest histories + reference partition model (model-based testing)",
+            "Generated size limits, record-length sequences at the limit boundaries, all write modes incl. async, all namings, append restarts; the ordered list of file contents must equal the partition predicted by an independent model (rotate iff size before the write > N, size seeded from the appended file), plus the corollary 'no record appended to a file already above N' checked directly on the files. Search over thousands of cases, no proof.",
+            "trusts the reference partition model (src/model.rs, written from the documentation), the name grammar, tmpfs; restarts of direct-timestamp namings avoided (listed finding under C06) and counted",
+            "DESIGN.md 4/C08"),
+    "C09": ("exploration",
+            "proptest histories under a virtual clock + reference partition model (model-based testing)",
+            "Virtual-clock histories with structured instants and advance steps straddling second/minute/hour/day/month/year boundaries, in 6 DST-free time zones; file partition must equal the model (rotate iff local period differs from the period in which the current file was started) and timestamp infixes must equal the instant the content was started. Search, not proof.",
+            "trusts the verif_hooks clock redirection (every Local::now() of the file writer and the creation-time lookup), chrono's time-zone conversion, the reference model; async mode and direct-timestamp restarts excluded as stated in the evidence",
+            "DESIGN.md 4/C09"),
+    "C15": ("exploration",
+            "differential testing across write modes (proptest) + enumerated single-byte chunks",
+            "The same generated record or raw-chunk sequence is run under Direct, buffered and async modes; ordered file contents must agree with the Direct run and with the partition model, chunk concatenation must equal the input; all 256 single-byte chunk values are enumerated. Search, not proof.",
+            "trusts the Direct mode only as the differential reference (also compared with the model); known finding KF-C15-1 is tolerated by exact signature only",
+            "DESIGN.md 4/C15"),
 }
 
 ALL = ["C%02d" % i for i in range(1, 21)]
